@@ -3,7 +3,10 @@ package checks
 import (
 	"fmt"
 	"math/rand"
+	"runtime"
+	"strings"
 	"sync"
+	"time"
 	"sync/atomic"
 
 	"verif/core"
@@ -22,7 +25,7 @@ func init() {
 		Technique: "Go race detector over concurrently built-and-run applications + outcome-equality monitor (concurrent vs solo, permuted sequential order, rebuild)",
 		Rule: "a case is a round over a pool of 120 (program, command line) pairs (generator of C01 incl. spec-level -- and env-backed options, a third of them declared with the built-in typed variables so that value conversions can fail; environment fixed before any goroutine starts): " +
 			"(a) every pair is built and run solo and its outcome (acceptance + every bound value) recorded; (c) built and run a second time: same outcome; " +
-			"(b) the pool is run sequentially in random permutations in the same process: every outcome equal to solo; (d) 2-4 applications are all declared first and then run in a random order: every outcome equal to solo; (a') 16 goroutines each build and run randomly drawn pairs concurrently, under the race detector: " +
+			"(b) the pool is run sequentially in random permutations in the same process: every outcome equal to solo; (d) 2-4 applications are all declared first and then run in a random order: every outcome equal to solo; (g) one application object run on several command lines in turn reproduces the outcomes of fresh objects; (e) an Action that itself builds and runs another application, and two concurrently run applications whose Actions meet over an unbuffered channel, complete with their solo outcomes (a wall-clock watchdog of 20 s only reports a violation when the goroutine dump shows a lock wait inside the library); every solo outcome is also compared with the reference verdict; (a') 16 goroutines each build and run randomly drawn pairs concurrently, under the race detector: " +
 			"every outcome equal to solo and no data race reported (race reports are collected from the detector's log, deduplicated by the top frames). The evidence reports how many runs overlapped (in-flight counter sampled at Run entry). " +
 			"non-trivial = a concurrent run that overlapped with at least one other; distinct by (round, goroutine, draw).",
 		Assumptions: []string{
@@ -51,6 +54,9 @@ func runC20(c *core.Ctx) {
 	for len(pool) < c20Pool {
 		cfg := variantCfg(len(pool)%4, c.Tier)
 		p := gen.GenProg(c.R, cfg)
+		if len(pool)%5 == 4 {
+			p = gen.TinyProg(c.R) // identical spec strings with different meanings within one pool
+		}
 		typed := len(pool)%3 == 2
 		if typed {
 			for _, o := range p.Opts {
@@ -84,6 +90,17 @@ func runC20(c *core.Ctx) {
 			return
 		}
 		c.Inc("rebuild_equal")
+		// the solo outcome itself is checked against the reference: an outcome that is stable but wrong because of what
+		// an earlier application left behind in the process would otherwise pass every equality below
+		if !pool[i].typed && !FoldedEq(pool[i].p, pool[i].argv) {
+			if v, _ := decideBoth(pool[i].p, BuildNFA(pool[i].p, false), BuildNFA(pool[i].p, true), pool[i].argv); !v.Unclaimed {
+				if acc := strings.HasPrefix(pool[i].solo, "ACCEPT"); acc != v.Accept && (acc || pool[i].solo == "REJECT") {
+					c.Violation(fmt.Sprintf("application run after others in the same process: reference accept=%v, outcome %s", v.Accept, pool[i].solo), map[string]interface{}{"spec": pool[i].p.Spec, "decl": DeclStr(pool[i].p), "argv": pool[i].argv}, nil)
+					return
+				}
+				c.Inc("solo_agrees_with_reference")
+			}
+		}
 	}
 	// (b) permuted sequential order
 	perms := 2
@@ -121,6 +138,101 @@ func runC20(c *core.Ctx) {
 			}
 			c.Inc("interleaved_equal")
 		}
+	}
+	// (g) one application object run on several command lines in turn: each outcome equals that of a fresh object (the
+	// sequence stops once a run has given an env-backed option on the command line: the library then drops its
+	// environment fallback for good, a documented side effect)
+	for i := 0; i+3 < len(pool); i += 4 {
+		if pool[i].typed || pool[i].p != pool[i+3].p {
+			continue
+		}
+		app := drive.Single(pool[i].p)
+		app.Shared = true
+		b := drive.Build(app)
+	seq:
+		for rep := 0; rep < 2; rep++ {
+			for k := i; k < i+4; k++ {
+				o := b.Run(pool[k].argv)
+				c.Eval()
+				if got := drive.OutcomeKey(pool[k].p, o); got != pool[k].solo {
+					c.Violation("an application object that has parsed other command lines before behaves differently from a fresh one", map[string]interface{}{"spec": pool[k].p.Spec, "decl": DeclStr(pool[k].p), "argv": pool[k].argv, "fresh": pool[k].solo, "reused": got, "earlier_on_this_object": pool[i].argv}, nil)
+					return
+				}
+				c.Inc("reused_object_equal")
+				for od, vs := range o.Bind[0].Opts {
+					if od.EnvSet && len(vs) > 0 {
+						break seq
+					}
+				}
+			}
+		}
+	}
+	// (e) nested and cooperating applications: an Action that builds and runs another application, and two applications
+	// run concurrently whose Actions meet over an unbuffered channel, must both complete (no library-wide lock is held
+	// while user code runs)
+	var accepted []c20Pair
+	for _, pr := range pool {
+		if strings.HasPrefix(pr.solo, "ACCEPT") {
+			accepted = append(accepted, pr)
+		}
+	}
+	withIn := func(pr c20Pair, in func()) string {
+		app := drive.Single(pr.p)
+		app.Shared, app.Builtin = true, pr.typed
+		app.Root.InAction = in
+		return drive.OutcomeKey(pr.p, drive.Run(app, pr.argv))
+	}
+	waitOr := func(what string, done chan struct{}) bool {
+		select {
+		case <-done:
+			return true
+		case <-time.After(20 * time.Second): // generous: the operations take microseconds
+			buf := make([]byte, 1<<20)
+			stacks := string(buf[:runtime.Stack(buf, true)])
+			if strings.Contains(stacks, "sync.(*Mutex).Lock") && strings.Contains(stacks, "github.com/jawher/mow.cli") {
+				c.Abort(what + ": blocked on a lock inside the library (goroutine dump shows sync.(*Mutex).Lock under github.com/jawher/mow.cli)")
+			} else {
+				c.Inc("cooperation_timeout_unexplained")
+			}
+			return false
+		}
+	}
+	for k := 0; k < 6 && len(accepted) >= 2; k++ {
+		a, b := accepted[c.R.Intn(len(accepted))], accepted[c.R.Intn(len(accepted))]
+		inner := ""
+		done := make(chan struct{})
+		var outer string
+		go func() {
+			defer close(done)
+			outer = withIn(a, func() { inner = withIn(b, nil) })
+		}()
+		if !waitOr("an Action that builds and runs another application", done) {
+			return
+		}
+		c.Eval()
+		if outer != a.solo || inner != b.solo {
+			c.Violation("nested applications do not reproduce their solo outcomes", map[string]interface{}{"outer": outer, "outer_solo": a.solo, "inner": inner, "inner_solo": b.solo}, nil)
+			return
+		}
+		c.Inc("nested_equal")
+		// rendezvous
+		ch := make(chan int)
+		done2 := make(chan struct{})
+		var ka, kb string
+		var wg2 sync.WaitGroup
+		wg2.Add(2)
+		go func() { defer wg2.Done(); ka = withIn(a, func() { ch <- 1 }) }()
+		go func() { defer wg2.Done(); kb = withIn(b, func() { <-ch }) }()
+		go func() { wg2.Wait(); close(done2) }()
+		if !waitOr("two concurrent applications whose Actions wait for each other", done2) {
+			return
+		}
+		c.Eval()
+		if ka != a.solo || kb != b.solo {
+			c.Violation("cooperating applications do not reproduce their solo outcomes", map[string]interface{}{"a": ka, "a_solo": a.solo, "b": kb, "b_solo": b.solo}, nil)
+			return
+		}
+		c.Inc("rendezvous_equal")
 	}
 	// (a') concurrent
 	var wg sync.WaitGroup
